@@ -9,7 +9,7 @@
 //! Additionally every range is round-tripped through serde's own visitors (`Vec<Data>`,
 //! `HashMap<String, Data>`, tuples, a derived struct with `Option` fields) against an independent
 //! expectation (family `derive`), and the cell conversion table is swept (family `convert`).
-use calamine::{CellErrorType, Data, DataType, DeError, ExcelDateTime, ExcelDateTimeType, Range, RangeDeserializerBuilder, ToCellDeserializer};
+use calamine::{CellErrorType, Data, DataType, DeError, RangeDeserializer, ExcelDateTime, ExcelDateTimeType, Range, RangeDeserializerBuilder, ToCellDeserializer};
 use serde::de::{DeserializeSeed, Deserializer, EnumAccess, MapAccess, SeqAccess, Visitor};
 use serde::Deserialize;
 use std::cell::RefCell;
@@ -486,9 +486,7 @@ fn run_impl(case: &Case, variant: u64) -> String {
         Ok(r) => r,
         Err(_) => return "range-panic".into(),
     };
-    SCHED.with(|s| *s.borrow_mut() = case.sched.clone());
-    let method: u8 = if case.map { 10 + (variant % 2) as u8 } else { (variant % 7) as u8 };
-    ROW_METHOD.with(|m| *m.borrow_mut() = method);
+    setup_case(case, variant);
     let built = guarded(|| match &case.cfg {
         Cfg::None => RangeDeserializerBuilder::new().has_headers(false).from_range::<Data, RecRow>(&range),
         Cfg::All => match variant / 7 % 3 {
@@ -505,6 +503,18 @@ fn run_impl(case: &Case, variant: u64) -> String {
             }
         }
     });
+    drive(built, &case.ops)
+}
+
+/// per-case settings of the recording visitors
+fn setup_case(case: &Case, variant: u64) {
+    SCHED.with(|s| *s.borrow_mut() = case.sched.clone());
+    let method: u8 = if case.map { 10 + (variant % 2) as u8 } else { (variant % 7) as u8 };
+    ROW_METHOD.with(|m| *m.borrow_mut() = method);
+}
+
+/// consume a freshly built deserializer by the case's steps; the canonical observation text
+fn drive<'a>(built: Result<Result<RangeDeserializer<'a, Data, RecRow>, DeError>, String>, ops: &[Op]) -> String {
     let mut it = match built {
         Err(_) => return "panic".into(),
         Ok(Err(e)) => return err_canon(&e),
@@ -532,7 +542,7 @@ fn run_impl(case: &Case, variant: u64) -> String {
             v.join(" & ")
         }
     }
-    for op in &case.ops {
+    for op in ops {
         let r: Result<String, String> = match op {
             Op::Next => guarded(|| item_text(it.next())),
             Op::Nth(n) => guarded(|| item_text(it.nth(*n))),
@@ -887,7 +897,11 @@ struct Fail {
 }
 
 fn eval_case(case: &Case, variant: u64, drv: &mut Driver) -> Vec<Fail> {
-    let imp = run_impl(case, variant);
+    compare(case, run_impl(case, variant), drv)
+}
+
+/// three-way comparison of an observed run of `case`
+fn compare(case: &Case, imp: String, drv: &mut Driver) -> Vec<Fail> {
     let model = drv.ask(&format!("{} {}", case.wire(), case.std_table()));
     let expect = run_oracle(case);
     let mut fails = vec![];
@@ -1479,6 +1493,9 @@ fn gen_int(rng: &mut Rng) -> i64 {
 }
 
 fn gen_cell(rng: &mut Rng) -> Data {
+    if rng.chance(1, 40) {
+        return gen_midpoint_cell(rng).0;
+    }
     match rng.below(20) {
         0..=2 => Data::Int(gen_int(rng)),
         3..=5 => Data::Float(gen_float(rng)),
@@ -1620,6 +1637,312 @@ fn gen_case(rng: &mut Rng) -> Case {
     Case { dims, cells, cfg, map: rng.chance(1, 2), ops, sched }
 }
 
+/// wide ranges: 65..300 columns (and the boundary widths), header names from a small pool so that many
+/// columns carry the same name after trimming; custom selections name the duplicated headers; the data cell of
+/// column `c` in data row `i` is `Int(1000*i + c)` (mostly), so a wrong column is visible in the value
+fn gen_wide_case(rng: &mut Rng) -> Case {
+    let w = match rng.below(8) {
+        0 => 63,
+        1 => 64,
+        2 => 65,
+        3 => 66,
+        4 => 300,
+        _ => rng.range(65, 300) as usize,
+    };
+    let h = rng.range(2, 3) as usize;
+    let names = ["x", "y", "id", "", "a b", "Name", "k", "v"];
+    let nn = rng.range(2, names.len() as u64) as usize;
+    let mut cells = vec![];
+    for j in 0..w {
+        cells.push(match rng.below(12) {
+            0 => Data::Int(j as i64 % 7),
+            1 => Data::Empty,
+            2 => Data::String(format!("u{j}")),
+            _ => {
+                let nm = names[rng.below(nn as u64) as usize];
+                Data::String(pad(rng, nm))
+            }
+        });
+    }
+    for i in 1..h {
+        for j in 0..w {
+            cells.push(match rng.below(40) {
+                0 => Data::Empty,
+                1 => Data::Error(rng.pick(&KINDS).clone()),
+                _ => Data::Int(1000 * i as i64 + j as i64),
+            });
+        }
+    }
+    let hdrs: Vec<String> = cells[..w].iter().map(o_text).collect();
+    let k = rng.range(1, 4) as usize;
+    let mut sel = vec![];
+    for _ in 0..k {
+        let base = if rng.chance(19, 20) { rng.pick(&hdrs).trim().to_string() } else { "zz".to_string() };
+        sel.push(pad(rng, &base));
+    }
+    let origins: [u32; 4] = [0, 3, 65535, u32::MAX - 400];
+    Case {
+        dims: Some((*rng.pick(&origins), *rng.pick(&origins), h, w)),
+        cells,
+        cfg: if rng.chance(9, 10) { Cfg::Custom(sel) } else { Cfg::All },
+        map: rng.chance(1, 2),
+        ops: vec![Op::Next; h],
+        sched: vec!["any".into()],
+    }
+}
+
+/// 2-3 ranges to be deserialized with ONE builder value: the later ranges have the first one's header row
+/// re-padded (equal after trimming, different bytes), permuted, or regenerated; same configuration
+fn gen_reuse_sequence(rng: &mut Rng) -> Vec<Case> {
+    let mut first = loop {
+        let c = gen_case(rng);
+        if c.dims.is_some() && c.h() >= 2 {
+            break c;
+        }
+    };
+    let w = first.w();
+    // headers that are texts (so that re-padding is possible)
+    for j in 0..w {
+        if !matches!(first.cells[j], Data::String(_)) || rng.chance(1, 2) {
+            let nm = *rng.pick(&["a", "b", "id", "name", "flag", "score", "note", "x y"]);
+            first.cells[j] = Data::String(pad(rng, nm));
+        }
+    }
+    let hdrs: Vec<String> = first.cells[..w].iter().map(o_text).collect();
+    if rng.chance(4, 5) {
+        let k = rng.range(1, 4) as usize;
+        first.cfg = Cfg::Custom(
+            (0..k)
+                .map(|_| {
+                    let b = rng.pick(&hdrs).trim().to_string();
+                    pad(rng, &b)
+                })
+                .collect(),
+        );
+    }
+    first.map = rng.chance(4, 5);
+    first.ops = vec![Op::Next; first.h()];
+    let mut seq = vec![first.clone()];
+    for _ in 0..rng.range(1, 2) {
+        let mut c = first.clone();
+        let h = rng.range(2, 4) as usize;
+        let (sr, sc, _, _) = first.dims.unwrap();
+        c.dims = Some((sr.min(u32::MAX - 8), sc, h, w));
+        let mut hdr: Vec<Data> = match rng.below(8) {
+            // equal after trimming, different padding
+            0..=4 => hdrs.iter().map(|t| Data::String(pad(rng, t.trim()))).collect(),
+            // identical
+            5 => first.cells[..w].to_vec(),
+            // other names
+            _ => (0..w).map(|_| gen_header_cell(rng)).collect(),
+        };
+        if rng.chance(1, 4) {
+            rng.shuffle(&mut hdr);
+        }
+        c.cells = hdr;
+        for _ in 0..(h - 1) * w {
+            c.cells.push(if rng.chance(1, 6) { Data::Empty } else { gen_cell(rng) });
+        }
+        c.ops = vec![Op::Next; h];
+        seq.push(c);
+    }
+    seq
+}
+
+fn seq_wire(seq: &[Case]) -> String {
+    format!("reuse|{}", seq.iter().map(|c| c.wire()).collect::<Vec<_>>().join("|"))
+}
+
+/// observations of a sequence of ranges deserialized with one builder value (recording record type)
+fn run_reuse_impl(seq: &[Case], variant: u64) -> Vec<String> {
+    let ranges: Vec<Range<Data>> = seq.iter().map(|c| c.range()).collect();
+    let mut out = vec![];
+    match &seq[0].cfg {
+        Cfg::Custom(names) => {
+            let b = RangeDeserializerBuilder::with_headers(names);
+            let b2 = b.clone();
+            for (i, c) in seq.iter().enumerate() {
+                setup_case(c, variant);
+                // the clone taken before any use must behave like the original
+                let bb = if variant % 3 == 2 && i == seq.len() - 1 { &b2 } else { &b };
+                out.push(drive(guarded(|| bb.from_range::<Data, RecRow>(&ranges[i])), &c.ops));
+            }
+        }
+        cfg => {
+            let mut b = RangeDeserializerBuilder::new();
+            b.has_headers(*cfg == Cfg::All);
+            for (i, c) in seq.iter().enumerate() {
+                setup_case(c, variant);
+                out.push(drive(guarded(|| b.from_range::<Data, RecRow>(&ranges[i])), &c.ops));
+            }
+        }
+    }
+    out
+}
+
+/// the derived struct through ONE `with_deserialize_headers::<Rec>()` builder vs a fresh builder per range
+fn run_reuse_struct(seq: &[Case]) -> Option<(usize, String, String)> {
+    let ranges: Vec<Range<Data>> = seq.iter().map(|c| c.range()).collect();
+    let all = |b: &RangeDeserializerBuilder<'_, &str>, r: &Range<Data>| -> String {
+        match guarded(|| b.from_range::<Data, Rec>(r)) {
+            Err(_) => "panic".into(),
+            Ok(Err(e)) => err_canon(&e),
+            Ok(Ok(it)) => {
+                let mut v = vec![];
+                let mut it = it;
+                loop {
+                    match guarded(|| it.next()) {
+                        Err(_) => {
+                            v.push("panic".to_string());
+                            break;
+                        }
+                        Ok(None) => break,
+                        Ok(Some(Ok(r))) => v.push(rec_canon(&r)),
+                        Ok(Some(Err(e))) => v.push(err_canon(&e)),
+                    }
+                }
+                v.join(" | ")
+            }
+        }
+    };
+    let shared = RangeDeserializerBuilder::with_deserialize_headers::<Rec>();
+    for (i, r) in ranges.iter().enumerate() {
+        let got = all(&shared, r);
+        let fresh = RangeDeserializerBuilder::with_deserialize_headers::<Rec>();
+        let want = all(&fresh, r);
+        if got != want {
+            return Some((i, got, want));
+        }
+    }
+    None
+}
+
+/// family `reuse`: one builder value, several ranges; every range must behave as with a fresh builder
+/// (the builder is pure configuration: oracle and model are evaluated per range)
+fn reuse_family(seq: &[Case], variant: u64, drv: &mut Driver, rep: &mut Report) {
+    let text = seq_wire(seq);
+    rep.case(&text, true);
+    rep.count("reuse.sequences");
+    rep.add("reuse.ranges", seq.len() as u64);
+    let obs = match guarded(|| run_reuse_impl(seq, variant)) {
+        Ok(o) => o,
+        Err(m) => {
+            rep.fail("impl_vs_spec", "reuse:panic", &text, &m, "", "no panic");
+            return;
+        }
+    };
+    for (i, c) in seq.iter().enumerate() {
+        for f in compare(c, obs[i].clone(), drv) {
+            // report the shortest prefix-free sequence that still shows it: drop earlier ranges while it persists
+            let mut keep: Vec<Case> = seq[..=i].to_vec();
+            let mut k = 0;
+            while keep.len() > 1 && k < keep.len() - 1 {
+                let mut cand = keep.clone();
+                cand.remove(k);
+                let o2 = guarded(|| run_reuse_impl(&cand, variant)).unwrap_or_default();
+                let still = o2.last().map_or(false, |o| {
+                    compare(cand.last().unwrap(), o.clone(), drv).iter().any(|g| g.kind == f.kind && g.sig == f.sig)
+                });
+                if still {
+                    keep = cand;
+                } else {
+                    k += 1;
+                }
+            }
+            let sig = if i == 0 { f.sig.clone() } else { format!("reuse:{}", f.sig) };
+            rep.fail(f.kind, &sig, &seq_wire(&keep), &f.imp, &f.model, &f.expect);
+        }
+    }
+    // struct field binding through a shared with_deserialize_headers builder
+    let rec_seq: Vec<Case> = seq.to_vec();
+    match guarded(|| run_reuse_struct(&rec_seq)) {
+        Ok(None) => {}
+        Ok(Some((i, got, want))) => {
+            rep.fail("impl_vs_spec", "reuse:struct", &seq_wire(&seq[..=i]), &got, "", &format!("(fresh builder) {want}"));
+        }
+        Err(m) => rep.fail("impl_vs_spec", "reuse:panic", &text, &m, "", "no panic"),
+    }
+}
+
+/// exact decimal text of `m * 2^e` (`e <= 0`, small enough for u128), optionally nudged by one unit in a
+/// place three digits further right (`nudge` = -1, 0, +1)
+fn decimal_of(m: u64, e: i32, nudge: i32) -> String {
+    let k = (-e) as u32; // value = m * 5^k / 10^k
+    let mut n: u128 = m as u128 * 5u128.pow(k);
+    let mut digits = k;
+    if nudge != 0 {
+        n = n * 1000;
+        digits += 3;
+        n = if nudge > 0 { n + 1 } else { n - 1 };
+    }
+    let s = n.to_string();
+    let s = if s.len() <= digits as usize { format!("{}{}", "0".repeat(digits as usize + 1 - s.len()), s) } else { s };
+    let (a, b) = s.split_at(s.len() - digits as usize);
+    if b.is_empty() {
+        a.to_string()
+    } else {
+        format!("{a}.{b}")
+    }
+}
+
+/// directed stream for single rounding: cells sitting on / next to the midpoint of two adjacent f32 (or f64)
+/// values, as `Int` cells beyond 2^53 and as decimal strings. Converting through a wider intermediate
+/// (`as f64 as f32`, parse as f64 then narrow) rounds twice and lands on the wrong neighbour.
+fn gen_midpoint_cell(rng: &mut Rng) -> (Data, &'static str) {
+    match rng.below(4) {
+        0 | 1 => {
+            // integer midpoint of adjacent f32 values in [2^54, 2^63): 24-bit significand, then the half bit
+            let exp = rng.range(54, 62) as u32; // value in [2^exp, 2^(exp+1))
+            let sig = (1u64 << 23) | (rng.next() & ((1 << 23) - 1));
+            let mid = (sig << (exp - 23)) | (1u64 << (exp - 24));
+            let f64_half_ulp = 1i64 << (exp - 53); // |d| <= this keeps the f64 reading on the midpoint
+            let d = match rng.below(6) {
+                0 => 0,
+                1 => 1,
+                2 => -1,
+                3 => rng.range(1, f64_half_ulp as u64) as i64,
+                4 => -(rng.range(1, f64_half_ulp as u64) as i64),
+                _ => (rng.below(5) as i64 - 2) * f64_half_ulp,
+            };
+            let v = mid as i64 + d;
+            let v = if rng.chance(1, 2) { v } else { -v };
+            if rng.chance(1, 5) {
+                (Data::String(v.to_string()), "f32")
+            } else {
+                (Data::Int(v), "f32")
+            }
+        }
+        2 => {
+            // integer midpoint of adjacent f64 values (i64 beyond 2^53)
+            let exp = rng.range(54, 62) as u32;
+            let sig = (1u64 << 52) | (rng.next() & ((1 << 52) - 1));
+            let mid = (sig << (exp - 52)) | (1u64 << (exp - 53));
+            let v = mid as i64 + (rng.below(3) as i64 - 1);
+            let v = if rng.chance(1, 2) { v } else { -v };
+            let t = *rng.pick(&["f64", "f64", "f32"]);
+            if rng.chance(1, 4) {
+                (Data::String(v.to_string()), t)
+            } else {
+                (Data::Int(v), t)
+            }
+        }
+        _ => {
+            // decimal string next to the midpoint of adjacent f32 values in [2^-8, 2^20)
+            let exp = rng.range(0, 27) as i32 - 8;
+            let sig = (1u64 << 23) | (rng.next() & ((1 << 23) - 1));
+            let m = (sig << 1) | 1; // 25 bits: the midpoint
+            let e = exp - 24;
+            let text = if e <= 0 {
+                decimal_of(m, e, rng.below(3) as i32 - 1)
+            } else {
+                ((m as u128) << e).to_string()
+            };
+            let text = if rng.chance(1, 4) { format!("-{text}") } else { text };
+            (Data::String(text), "f32")
+        }
+    }
+}
+
 fn corpus() -> Vec<&'static str> {
     vec![
         // the minimal inputs of the findings (findings/C09.json): D04, D04 (underflow), D05, D05 (header row), D39, D39
@@ -1680,8 +2003,8 @@ fn main() {
          methods x consumption history (either height+1 / 0-8 calls to next, or a random mixture of 1-7 steps out of next, nth(n), by_ref().skip(k).next(), by_ref().step_by(k).take(m), by_ref().take(m), by_ref().last(), by_ref().count(), size_hint only; n up to usize::MAX; on the model side nth is the model's nth (= n+1 next steps, theorem nth_eq_iterate_next) and the adaptors are mapped to the next/nth sequences std performs: skip(k).next() = nth(k), step_by(k) = nth(0) then nth(k-1), take/last/count = repeated next); a recording Deserialize impl observes the exact visit_seq/visit_map event stream (values seen before the first \
          failure + the error) and size_hint before/after every step; compared impl vs Lean model vs independent \
          oracle. Family derive: the same ranges through Vec<Data>, HashMap<String,Data>, (String,Option<f64>,bool) and a derived \
-         struct with Option fields (with_deserialize_headers) against an expectation computed from the description. Family convert: \
-         every pool cell x every target. Family helpers: the 12 deserialize_as_*_or_none/_or_string functions on pool and random cells (error cell => CellError at its position, else the accessor applied to the rebuilt Data). Non-trivial = a non-empty range with at least one data row; distinct by case text",
+         struct with Option fields (with_deserialize_headers) against an expectation computed from the description. Every 64th random case is a wide range (63..300 columns, header names from a pool of 2-8 names with random padding => many duplicates after trimming, custom selections naming them, data cell = 1000*row+column). Family reuse: ONE builder value (with_headers / new().has_headers / with_deserialize_headers::<Rec>, also a clone taken before first use) deserializes 2-3 ranges in sequence whose header rows are re-padded (equal after trimming), identical, permuted or different; every range is compared with model and oracle evaluated per range (the builder is pure configuration: the model has no builder state) and, for the derived struct, with a fresh builder. Family convert: \
+         every pool cell x every target, plus a directed stream of f32/f64 rounding midpoints (Int cells beyond 2^53 and decimal strings on / one unit next to the midpoint of adjacent f32 or f64 values; single correctly-rounded conversion expected: Rust `as f32`/`as f64` and str::parse::<f32|f64> in the oracle, intToF32/intToF64 round-to-nearest-even in the Lean model, string parsing through the model's Std parameter). Family helpers: the 12 deserialize_as_*_or_none/_or_string functions on pool and random cells (error cell => CellError at its position, else the accessor applied to the rebuilt Data). Non-trivial = a non-empty range with at least one data row; distinct by case text",
     );
     rep.notes.push("Rust std f64::to_string / str::parse::<f64|f32> are measured on the real std for the cells of each case and passed to the model as its `Std` parameter (theorems hold for every Std)".into());
     rep.notes.push("serde and serde_derive visitors are not modelled: the model describes the event stream handed to any visitor; derived types are exercised as an implementation-level oracle".into());
@@ -1692,12 +2015,32 @@ fn main() {
             let p: Vec<&str> = inp.split_whitespace().collect();
             let pos: Vec<u32> = p[3].split(',').map(|x| x.parse().unwrap()).collect();
             convert_case(&cell_parse(p[1]), p[2], (pos[0], pos[1]), &mut drv, &mut rep);
+        } else if let Some(rest) = inp.strip_prefix("reuse|") {
+            let seq: Vec<Case> = rest.split('|').map(Case::parse).collect();
+            reuse_family(&seq, 0, &mut drv, &mut rep);
         } else {
             cases.push(Case::parse(inp));
         }
     } else {
         for c in corpus() {
             cases.push(Case::parse(c));
+        }
+        // seeded C09-m7: 65 columns, "x" in column 3 and " x " in column 63; selecting "x" means column 3 (first match)
+        for w in [64usize, 65] {
+            let mut cells: Vec<Data> = (0..w).map(|j| Data::String(format!("u{j}"))).collect();
+            cells[3] = Data::String("x".into());
+            cells[w - 2] = Data::String(" x ".into());
+            cells.extend((0..w).map(|j| Data::Int(1000 + j as i64)));
+            for map in [false, true] {
+                cases.push(Case {
+                    dims: Some((0, 0, 2, w)),
+                    cells: cells.clone(),
+                    cfg: Cfg::Custom(vec!["x".into(), " u5".into()]),
+                    map,
+                    ops: vec![Op::Next; 2],
+                    sched: vec!["any".into()],
+                });
+            }
         }
     }
     let fixed = cases.len();
@@ -1710,7 +2053,8 @@ fn main() {
         let case: &Case = if idx < fixed {
             &cases[idx]
         } else {
-            generated = gen_case(&mut gen_rng);
+            // every 64th random case is a wide one (65..300 columns, duplicated header names)
+            generated = if (idx - fixed) % 64 == 63 { gen_wide_case(&mut gen_rng) } else { gen_case(&mut gen_rng) };
             &generated
         };
         let text = case.wire();
@@ -1723,7 +2067,11 @@ fn main() {
         });
         rep.count(if case.map { "shape.map" } else { "shape.seq" });
         rep.count(&format!("rows.{}", case.h()));
-        rep.count(&format!("cols.{}", case.w()));
+        rep.count(&match case.w() {
+            w if w <= 5 => format!("cols.{w}"),
+            w if w <= 64 => "cols.6-64".to_string(),
+            _ => "cols.65-300".to_string(),
+        });
         if let Some((sr, sc, h, w)) = case.dims {
             if sr as u64 + h as u64 == 1 << 32 {
                 rep.count("origin.last_row_is_u32max");
@@ -1811,6 +2159,38 @@ fn main() {
         for _ in 0..args.count(2_000, 100_000) {
             let d = gen_cell(&mut rng);
             helpers_case(&d, (rng.next() as u32, rng.next() as u32), &mut rep);
+        }
+        // directed: midpoints of adjacent f32 / f64 values (single correctly-rounded conversion expected)
+        for _ in 0..args.count(3_000, 300_000) {
+            let (d, t) = gen_midpoint_cell(&mut rng);
+            rep.count("convert.midpoint");
+            convert_case(&d, t, (rng.next() as u32, rng.next() as u32), &mut drv, &mut rep);
+        }
+        for c in [
+            "I:1152921573326323713",  // 2^60 + 2^36 + 1 (seeded C09-m5)
+            "I:1152921573326323712",  // the midpoint itself: ties to even
+            "S:312e3030303030303137383831333933343332363137313837343939", // "1.00000017881393432617187499"
+            "S:312e303030303030313738383133393334333236313731383735",     // the midpoint "1.000000178813934326171875"
+            "I:9007199254740993",
+            "I:-9223372036854775807",
+        ] {
+            for t in ["f32", "f64"] {
+                convert_case(&cell_parse(c), t, (7, 9), &mut drv, &mut rep);
+            }
+        }
+        // one builder value reused over several ranges
+        for c in [
+            // seeded C09-m6: second range's headers equal the first's only after trimming; keys must be its own
+            "reuse|de 0,0,2,2/S:61,S:62,I:1,I:2 C/61/62 map 2 any|de 0,0,2,2/S:2061,S:6220,I:3,I:4 C/61/62 map 2 any",
+            "reuse|de 0,0,2,2/S:2061,S:6220,I:1,I:2 C/62/61 map 2 any|de 5,5,2,2/S:62,S:61,I:3,I:4 C/62/61 map 2 any|de 0,0,2,2/S:61,S:62,I:3,I:4 C/62/61 map 2 any",
+            "reuse|de 0,0,2,3/S:6964,S:6e616d65,S:666c6167,I:1,S:78,B:1 A map 2 any|de 0,0,2,3/S:206964,S:6e616d6520,S:666c6167,I:2,S:79,B:0 A map 2 any",
+        ] {
+            let seq: Vec<Case> = c.strip_prefix("reuse|").unwrap().split('|').map(Case::parse).collect();
+            reuse_family(&seq, 0, &mut drv, &mut rep);
+        }
+        for i in 0..args.count(1_500, 150_000) {
+            let seq = gen_reuse_sequence(&mut rng);
+            reuse_family(&seq, i, &mut drv, &mut rep);
         }
         let extra = args.count(6_000, 600_000);
         for _ in 0..extra {
